@@ -586,14 +586,15 @@ func Queue[V any](arguments ...any) col.QueueLike[V] {
 	case sequence != nil:
 		queue = class.MakeFromSequence(sequence)
 	case len(source) > 0:
-		queue = class.Make()
 		var collection = notation.ParseSource(source).(col.Sequential[any])
 		// Convert the values to their real type.
+		var list = col.List[V](notation).Make()
 		var iterator = collection.GetIterator()
 		for iterator.HasNext() {
 			var value = iterator.GetNext().(V)
-			queue.AddValue(value)
+			list.AppendValue(value)
 		}
+		queue = class.MakeFromSequence(list)
 	default:
 		queue = class.Make()
 	}
@@ -744,14 +745,15 @@ func Stack[V any](arguments ...any) col.StackLike[V] {
 	case sequence != nil:
 		stack = class.MakeFromSequence(sequence)
 	case len(source) > 0:
-		stack = class.Make()
 		var collection = notation.ParseSource(source).(col.Sequential[any])
 		// Convert the values to their real type.
+		var list = col.List[V](notation).Make()
 		var iterator = collection.GetIterator()
 		for iterator.HasNext() {
 			var value = iterator.GetNext().(V)
-			stack.AddValue(value)
+			list.AppendValue(value)
 		}
+		stack = class.MakeFromSequence(list)
 	default:
 		stack = class.Make()
 	}
